@@ -110,6 +110,8 @@ func (w *World) verifyFunc(key string) (fc *FuncCtx) {
 			panic(r)
 		}
 	}()
+	fc.defs = map[string]string{}
+	w.Reg.curDefs = fc.defs
 	if fc.contract == nil {
 		fc.contract = &Contract{Key: key, Pkg: pkg, Loops: map[int]*LoopContract{}, Opts: map[string]string{}}
 	}
@@ -163,6 +165,14 @@ func (w *World) verifyFunc(key string) (fc *FuncCtx) {
 		if _, isPtr := sig.Recv().Type().Underlying().(*types.Pointer); isPtr {
 			// a method body only runs with the receiver it was called on; nil receivers are the caller's obligation
 			fc.assume(st, not(fc.reg().isNil(st.vars[sig.Recv()])))
+			// a non-nil pointer is ref(deref(p)): in this form the fields of the pointee can be followed through
+			// updates and merges (struct receivers with many fields, see mergeFieldwise)
+			if pt, ok := sig.Recv().Type().Underlying().(*types.Pointer); ok {
+				if stt, isStruct := pt.Elem().Underlying().(*types.Struct); isStruct && stt.NumFields() >= 16 {
+					in := st.vars[sig.Recv()]
+					st.vars[sig.Recv()] = fc.reg().ref(Term{S: "(deref_" + fc.reg().SortOf(in.T) + " " + in.S + ")", T: pt.Elem()}, in.T)
+				}
+			}
 		}
 	}
 	for i := 0; i < sig.Params().Len(); i++ {
